@@ -803,6 +803,281 @@ def live_stock_runs(chk, violation):
             'measurements.live_canyon_exchange)' % (aliased[0][0], aliased[0][4], aliased[0][5]))
 
 
+# ------------------------------------------------------------------------------- round 4: circumstances
+def kernel_circumstances(chk, pkg, violation):
+    """[1][2][6] on the kernel objects themselves (exact rationals): SolarCalcs / UCMDef / Element / archetype
+    stand-ins rendered between two solarcalcs() calls on one object; the inputs of the routines left alone."""
+    import generic as G
+    import u3_util as U3
+    rng = chk.rng
+    quick = chk.tier == 'quick'
+    dg0 = U3.class_digest('uwgfrac')[0]
+    n = nbad = 0
+    br = {}
+    looks = [('repr', lambda o: [repr(x) for x in U3.kernel_objects(o)]),
+             ('str', lambda o: [str(x) for x in U3.kernel_objects(o)]),
+             ('every renderer of every reachable object', U3.render),
+             ('DEBUG logging + render', None)]
+
+    def sequence(c1, c2, look):
+        sc, geo = build_solar(pkg, c1)
+        out = []
+        for c in (c1, c2):
+            if look:
+                look(sc)
+            err, o = run_solar(sc, c)
+            out.append(err or solar_answer(o) if (err or o['roof'] is not None) else 'ok nobem')
+        if look:
+            look(sc)
+        return out, sc, geo
+
+    for i in range(40 if quick else 400):
+        geom = gen_geom(rng, 'pyth') if rng.random() < 0.7 else None
+        c1 = gen_solar(rng, geom=geom, sun_kind=rng.choice(['consistent', 'overhead', 'random']))
+        sc0, geo = build_solar(pkg, c1)
+        fill_sun(rng, c1, geo[0])
+        c2 = dict(c1, sun_kind=rng.choice(['consistent', 'nosun', 'random']))
+        fill_sun(rng, c2, geo[0])
+        lname, look = looks[i % len(looks)]
+        ref, sc_ref, _ = sequence(c1, c2, None)
+        if look is None:
+            with G.debug_logging():
+                got, sc, _ = sequence(c1, c2, U3.render)
+        else:
+            got, sc, _ = sequence(c1, c2, look)
+        n += 1
+        br[lname] = br.get(lname, 0) + 1
+        msgs = []
+        if got != ref:
+            k = 0 if got[0] != ref[0] else 1
+            msgs.append('solarcalcs call %d on an object somebody looked at gives %s, unobserved %s' % (k + 1, got[k][:160], ref[k][:160]))
+        w = U3.where(U3.state(sc_ref), U3.state(sc))
+        if w and not msgs:
+            msgs.append('state after the observed sequence differs from the unobserved one: ' + w)
+        # [6] the inputs of solarcalcs are left alone, its results are the objects handed in; twice = once
+        sc, geo = build_solar(pkg, c1)
+        par0, st0, rsm0 = U3.state(sc.parameter), U3.state(sc.simTime), U3.state(sc.RSM)
+        bem_ids = [id(b) for b in sc.BEM]
+        bem_list = sc.BEM
+        err1, o1 = run_solar(sc, c1)
+        err2, o2 = run_solar(sc, c1)
+        if (err1, o1) != (err2, o2):
+            msgs.append('the same solarcalcs call twice on one object gives two results')
+        if not (U3.same(par0, U3.state(sc.parameter)) and U3.same(st0, U3.state(sc.simTime)) and U3.same(rsm0, U3.state(sc.RSM))):
+            msgs.append('solarcalcs wrote into its parameter / clock / site inputs: %s' % (
+                U3.where(par0, U3.state(sc.parameter)) or U3.where(st0, U3.state(sc.simTime)) or U3.where(rsm0, U3.state(sc.RSM))))
+        if sc.BEM is not bem_list or [id(b) for b in sc.BEM] != bem_ids:
+            msgs.append('solarcalcs re-ordered / replaced the archetype list it was given')
+        if msgs:
+            nbad += 1
+            violation('kernel objects under circumstances that must not matter (%s)' % lname,
+                      dict(case_json(c1), observer=lname, second_sun=case_json({k: c2[k] for k in ('dir', 'dif', 'zen', 'tz', 'crit')})),
+                      ' | '.join(msgs[:3]), 'rendering is not a computation; inputs are left alone; same call, same result')
+    # infracalcs / UCMDef.__init__: inputs left alone
+    for _ in range(20 if quick else 200):
+        c = gen_infra(rng)
+        u = NS(roadConf=c['rc'], wallConf=c['wc'], roadShad=c['shad'])
+        fo = NS(infra=c['infra'])
+        su, sf = U3.state(u), U3.state(fo)
+        r1 = pkg.infracalcs(u, fo, c['er'], c['ew'], c['tr'], c['tw'])
+        U3.render(u)
+        r2 = pkg.infracalcs(u, fo, c['er'], c['ew'], c['tr'], c['tw'])
+        n += 1
+        br['infracalcs'] = br.get('infracalcs', 0) + 1
+        if tuple(r1) != tuple(r2) or not U3.same(su, U3.state(u)) or not U3.same(sf, U3.state(fo)):
+            nbad += 1
+            violation('infracalcs is not a function of its arguments', case_json(c), '%s then %s' % (r1, r2), 'pure')
+        g = gen_geom(rng)
+        road = mk_road(pkg, F(1, 10), g['veg'])
+        sr = U3.state(road)
+        try:
+            with ExactRoots(pkg, on=g['kind'] == 'pyth'):
+                u1 = pkg.UCMDef(g['h'], g['dens'], g['vth'], g['tree'], F(0), F(0), F(293), F(1, 100), F(2), NS(windMin=F(1)),
+                                F(1, 4), HALF, F(1, 5), road)
+                U3.render(u1)
+                u2 = pkg.UCMDef(g['h'], g['dens'], g['vth'], g['tree'], F(0), F(0), F(293), F(1, 100), F(2), NS(windMin=F(1)),
+                                F(1, 4), HALF, F(1, 5), road)
+        except Exception:  # noqa: BLE001 - degenerate geometry (covered by the geometry tie)
+            continue
+        n += 1
+        br['UCMDef'] = br.get('UCMDef', 0) + 1
+        if [getattr(u1, k) for k in GEOM_ATTRS] != [getattr(u2, k) for k in GEOM_ATTRS] or not U3.same(sr, U3.state(road)):
+            nbad += 1
+            violation('UCMDef.__init__ depends on an earlier construction / changes the road it is given', case_json(g),
+                      U3.where(sr, U3.state(road)) or 'second construction differs', 'same geometry, road left alone')
+    if U3.class_digest('uwgfrac')[0] != dg0:
+        nbad += 1
+        violation('class-level data changed by the canyon kernels', {'package': 'fractionised'}, 'digest differs', 'constants')
+    chk.direct('kernel-objects-under-circumstances(solarcalcs, infracalcs, UCMDef)', n, n,
+               'circumstances [1][2][6] on the kernel objects (exact rationals): two solarcalcs() calls on ONE SolarCalcs '
+               'object (second sun different, incl. the no-sun branch) with the SolarCalcs / UCMDef / road Element / '
+               'archetype objects rendered (repr, str, every renderer incl. ToString / to_dict / copies, DEBUG logging) '
+               'before, between and after: answers and final state equal the unobserved sequence; the same call twice '
+               'gives one result; parameter / clock / site inputs, the archetype list and its order, the road handed to '
+               'UCMDef and the arguments of infracalcs are left alone; class-level data unchanged',
+               mismatches=nbad, branches=br)
+
+
+def explain_excess(chk, excess, violation, label):
+    """canyon totals with absorbed > entering seen in live runs: only the recorded closure deviation (Lean cR / cB > 1)
+    may explain them"""
+    if not excess:
+        return 0
+    keys = []
+    for e in excess:
+        a, rc, wc = e['geo']
+        keys.append(frac_list([F(a), F(rc), F(wc), F(e['ar']), F(e['walb'])]))
+    uniq = sorted(set(keys))
+    ans = dict(zip(uniq, chk.lean_run('C13', ['coef v=' + k for k in uniq])))
+    bad = 0
+    for e, k in zip(excess, keys):
+        a = ans[k]
+        vals = [F(x) for x in a.split('[')[1].rstrip(']').split(';')] if a.startswith('ok') else None
+        if vals is None or not (vals[0] > 1 or vals[1] > 1):
+            bad += 1
+            if bad <= 2:
+                violation('canyon as simulated absorbs more short-wave than enters it (%s)' % label,
+                          {'level': 'live', 'at': e['at'], 'aspect': e['geo'][0], 'road_albedo_used': e['ar'],
+                           'wall_albedo_used': e['walb'], 'what': label},
+                          'absorbed %.3f W per m2 of road, entering %.3f (+%.1f%%); Lean cR, cB = %s'
+                          % (e['absorbed'], e['entering'], 100 * (e['absorbed'] / e['entering'] - 1),
+                             None if vals is None else [float(v) for v in vals[:2]]),
+                          'absorbed <= entering wherever the recorded closure deviation (cR > 1) does not apply')
+    return bad
+
+
+def dictionary_route(chk, violation):
+    """[4] the dictionary / JSON route for the sub-objects the canyon exchange depends on."""
+    import generic as G
+    import uwgutil as UU
+    import u3_util as U3
+    rng = chk.rng
+    quick = chk.tier == 'quick'
+    uwg = UU.uwg_mod()
+    epw = UU.rp(SINGAPORE)
+    # (i) Element dictionaries on their own: verdicts, attributes, absorption behaviour, parse order, class-level data
+    data = U3.planted_wall_data(month=rng.choice([5, 6, 7, 8, 9]), wall_albedo=rng.choice([0.6, 0.7, 0.8]),
+                                wall_veg=rng.choice([0.4, 0.6, 0.9]), albveg=rng.choice([0.05, 0.1, 0.15]))
+    wall_d = data['ref_bem_vector'][0]['wall']
+    forc = NS(pres=101325., prec=0., deepTemp=295.)
+    par = NS(vegStart=4, vegEnd=10, vegAlbedo=data['albveg'], grassFLat=0.5, treeFLat=0.5, colburn=1., waterDens=1000.,
+             cp=1004., lv=2500800., wgmax=0.005)
+
+    def behave(el):
+        el.layerTemp = [300.] * len(el.layerTemp)
+        el.solRec, el.infra = 500., -40.
+        el.SurfFlux(forc, par, NS(month=data['month'], dt=300.), 0.012, 299., 2.5, 1., 5.)
+        return [el.solAbs, el.lat, el.sens, el.flux, list(el.layerTemp)]
+    # (ii) the whole model through UWG.from_dict with a hand-edited wall dictionary, canyon monitored while it runs
+    members = [(lab, d, exp) for lab, d, exp in U3.element_dict_members(wall_d, rng)
+               if exp is U3.REFUSED or exp == ('flag', False) or lab in ('as written', 'extra keys', 'albedo as float',
+                                                                         'material numbers as ints where integral')]
+    if quick:
+        keep_ref = [m for m in members if m[2] is U3.REFUSED and ('horizontal' in m[0] or 'absent' in m[0])]
+        members = [m for m in members if m[2] is not U3.REFUSED] + keep_ref
+    work = os.path.join(chk.work(), 'dict13')
+    nrun = nbad = 0
+    br = {}
+    excess = []
+    found = []
+    ref_rec = None
+    for lab, wd, exp in members:
+        dd = json.loads(json.dumps(data))
+        dd['ref_bem_vector'][0]['wall'] = wd
+        case = {'level': 'live', 'route': 'UWG.from_dict(JSON)', 'wall_dictionary_edit': lab,
+                'wall': {k: wd.get(k, '<absent>') for k in ('albedo', 'vegcoverage', 'horizontal')},
+                'albveg': data['albveg'], 'month': data['month'], 'day': data['day']}
+        r = U3.run_scenario(dd, epw, work, 'w.epw', monitors=('absorb', 'solar'), stages=('generate', 'simulate'))
+        nrun += 1
+        key = 'refused' if r['error'] else 'simulated'
+        br[key] = br.get(key, 0) + 1
+        msgs = []
+        if exp is U3.REFUSED and r['error'] is None:
+            msgs.append('accepted and simulated (the unchanged tree refuses this dictionary)')
+        if exp is not U3.REFUSED and r['error'] is not None:
+            msgs.append('refused with %s: %s' % (r['error'], r.get('error_msg', '')[:100]))
+        for mn, mr in r['monitors'].items():
+            msgs += ['%s monitor, %s' % (mn, x) for x in mr['problems'][:2]]
+        excess += [dict(e, label=lab) for e in r['monitors'].get('absorb', {}).get('excess', [])[:3]]
+        if r['error'] is None and exp is not U3.REFUSED:
+            if ref_rec is None:
+                ref_rec = r['records']
+            elif r['records'] != ref_rec:
+                fd = G.first_diff(r['records'], ref_rec)
+                msgs.append('hourly records differ from the run with the dictionary as written, first at record %s' % fd[0])
+        if msgs:
+            nbad += 1
+            found.append((0 if any('monitor' in x for x in msgs) else 1, lab, case, msgs))
+    for _, lab, case, msgs in sorted(found, key=lambda x: x[0])[:3]:      # property-level witnesses first
+        violation('custom archetype with a hand-edited wall dictionary (%s)' % lab, case, ' | '.join(msgs[:3]),
+                  'the verdict of the unchanged tree; if simulated: every wall absorbs the complement of what the '
+                  'canyon reflects from it, records as with the dictionary as written')
+    nbad += explain_excess(chk, excess, violation, 'hand-edited wall dictionary')
+    chk.direct('live-dictionary-route(custom archetype with a planted light facade)', nrun, nrun,
+               'circumstance [4]: UWG.from_dict on the JSON of a model whose one custom archetype has a light, planted '
+               'facade (albedo 0.6-0.8, vegetation cover 0.4-0.9, vegetation albedo 0.05-0.15, a month inside the '
+               'season - where the orientation of a wall decides whether the budget closes), the wall dictionary edited '
+               'by hand: as written, extra keys, ints / floats, the flag written in every spelling that means '
+               '"vertical" (False, 0, 0.0, "0", " 0 ", "00"), and the refused members (keys absent / null, flag as '
+               '"false" / "no" / "" / null ...). generate() + simulate() with the canyon monitored at every step: verdict '
+               'of the unchanged tree; every wall absorbs (1 - albedo) x received and the road the complement of the '
+               'closure\'s road albedo (1e-12); received irradiance as prescribed (s2 SolarMonitor); canyon absorbed <= '
+               'entering unless Lean cR > 1; records equal the run with the dictionary as written',
+               mismatches=nbad, branches=br)
+
+    nprob = 0
+    brs = {}
+    for role in ('wall', 'roof', 'mass'):
+        probs, br = U3.dict_route_problems(uwg.element.Element, data['ref_bem_vector'][0][role], rng, behave)
+        brs.update({'%s/%s' % (role, k): v for k, v in br.items()})
+        nprob += len(probs)
+        for label, d, obs, exp in probs[:1]:
+            violation('Element dictionary route (%s of a custom archetype): %s' % (role, label),
+                      {'level': 'dictionary', 'role': role, 'member': label, 'element_dictionary': d}, obs, exp)
+    chk.direct('element-dictionary-route(wall / roof / mass dictionaries of a custom archetype)', sum(brs.values()),
+               sum(brs.values()),
+               'circumstance [4]: Element.from_dict on the wall, roof and mass dictionaries of a custom archetype (JSON of '
+               'to_dict(); planted light facade) and their hand-edited variants: every key absent / null, extra keys, '
+               'numeric keys as int / float / numeric text, the orientation flag written as bool / int / float / text (19 '
+               'spellings). Verdict = unchanged tree; accepted => the element of the constructor route with the '
+               'orientation the flag means, same absorbed / latent / sensible / conducted heat in one in-season SurfFlux '
+               'call with 500 W/m2 received; independent of the Element dictionary parsed before; caller\'s dictionary and '
+               'class-level data left alone', mismatches=nprob, branches=brs)
+
+def live_circumstances_13(chk, violation):
+    import uwgutil as UU
+    import u3_util as U3
+    rng = chk.rng
+    probs, nk = U3.kernel_verdict_problems(chk, 'C13')
+    for lab, obs, exp in probs[:2]:
+        violation('kernel call under python -O / verdict of a refusal: ' + lab, {'level': 'kernel', 'call': lab}, obs, exp)
+    chk.direct('kernel-calls-under-python-O(UCMDef, solarcalcs, infracalcs)', nk, nk,
+               'circumstance [3]: ordinary UCMDef / solarcalcs / infracalcs calls and the refusals of the unchanged tree '
+               '(density 1, facade ratio 0, negative density, aspect 0, month 13) in this process and in a fresh '
+               'interpreter under python -O: identical outcomes bit for bit, each refusal of the same class',
+               mismatches=len(probs))
+    data = U3.planted_wall_data(month=rng.choice([5, 7, 9]), geometry=rng.choice([(10, 0.5, 0.8), (25, 0.4, 2.0)]),
+                                extra_bld=[('midriseapartment', 'pre80', 0.4)])
+    nb = U3.default_data(month=1, day=10)
+    res, probs = U3.live_circumstances(chk, data, UU.rp(SINGAPORE), ('absorb', 'solar'), 'live13',
+                                       neighbour=(nb, UU.rp(TORONTO)), cli_monitors=('absorb',))
+    for circ, obs, exp in probs[:3]:
+        violation('live canyon exchange under a circumstance that must not matter: ' + circ,
+                  {'level': 'live', 'month': data['month'], 'stock': data['bld'], 'circumstance': circ}, obs, exp)
+    excess = [e for r in res.values() for e in r.get('monitors', {}).get('absorb', {}).get('excess', [])[:3]]
+    nb_ = explain_excess(chk, excess, violation, 'live run under circumstances')
+    cnt = res['plain']['monitors']['absorb']['counts']
+    chk.direct('live-run-under-circumstances(canyon absorption monitor)', cnt.get('steps', 0), len(res),
+               'a 1-day run (custom archetype with planted light facade + a DOE archetype, dictionary route) with the '
+               'canyon monitored at every step (surfaces absorb the complement of what the closure reflects; received '
+               'irradiance as prescribed), repeated [1] rendered after construction / generate() / every 41st step / at the '
+               'end, [2] under DEBUG logging, [3] under python -O, [4] through `python -m uwg simulate model` (real '
+               'subprocess, and inside a monitored child), [5] with another model (other site) generated and simulated '
+               'between generate() and simulate(), [6] caller\'s dictionary compared before / after: records, written '
+               'file, verdict equal the plain run and the monitors hold everywhere',
+               mismatches=len(probs) + nb_, branches={k: 1 for k in res})
+
+
 # ------------------------------------------------------------------------------- main
 def load_corpus():
     d = os.path.join(core.VERIF, 'corpus', 'C13')
@@ -1005,6 +1280,9 @@ def run(chk):
     # ---------------------------------------------------------------- live simulations
     live_stock_runs(chk, violation)
     canyon_albedo_consistency(chk, violation)
+    kernel_circumstances(chk, pkg, violation)
+    dictionary_route(chk, violation)
+    live_circumstances_13(chk, violation)
 
     # ---------------------------------------------------------------- float level
     nf, fproblems, fcreation, fstats = float_pass(chk, 16 if quick else 60)
